@@ -29,7 +29,7 @@ META = {
     "outside_bounds": [
         "the opening handshake (Response serialisation uses format!; SHA-1/Base64 kernels are C18)",
         "engine K (these harnesses): message assembly is not reachable — Kani/CBMC runs out of memory on Message::from_stream's Vec<Frame> path (measured); control-frame handling, sending and the non-blocking header logic only; payloads <= 2 bytes per frame, scripts of <= 2 frames",
-        "engine M (message assembly, see `message_assembly`): script shapes beyond the listed ones — more than 4 frames (5 in the thorough tier), payloads above 300 bytes (the 64 KiB chunk loop of the frame decoder is C03/C10), several recv calls on one stream (each call is decided from an arbitrary script, the only state carried over is the read position)",
+        "engine M (message assembly, see `message_assembly`): script shapes beyond the listed ones — more than 4 frames (5 in the thorough tier), payload lengths other than the listed ones (0..300 and 65535/65536/65537/70 KiB), several recv calls on one stream (each call is decided from an arbitrary script, the only state carried over is the read position)",
         "read segmentations other than whole / byte-wise / one split point; real sockets, abrupt disconnects mid-frame beyond EOF",
         "the async app (C12)",
     ],
@@ -131,7 +131,7 @@ def run(tier, run_k):
                               "humphrey-ws/src/message.rs: Message::{from_stream, from_stream_nonblocking} and their closures",
                               "humphrey-ws/src/frame.rs: Frame::{from_stream, from_stream_nonblocking, from_stream_inner, new}, <Opcode as TryFrom<u8>>::try_from, From<Frame> for Vec<u8>, derived PartialEq of Opcode",
                               "humphrey-ws/src/util/restion.rs: From<Result<T, E>> for Restion<T, E>   (all from the MIR of the current working tree, bit-vector mode)"],
-        "bounds": "per obligation one script SHAPE is concrete (1..4 frames quick / 1..5 thorough; payload length 0..126 quick / ..300 thorough incl. the 125/126 boundary; 7/16/64-bit length forms incl. non-minimal; mask bit; bytes cut from the end 0..9 (abrupt disconnect); bytes delivered before a non-blocking call) and the CONTENT is symbolic: first header byte (FIN, RSV, opcode) of every frame, masking keys, every payload byte",
+        "bounds": "per obligation one script SHAPE is concrete (1..4 frames quick / 1..5 thorough; payload length 0..126 quick / ..300 thorough incl. the 125/126 boundary, plus one payload of 65537 bytes (thorough: also 65535, 65536, 70 KiB) through the decoder's 64 KiB chunk loop; 7/16/64-bit length forms incl. non-minimal; mask bit; bytes cut from the end 0..9 (abrupt disconnect); bytes delivered before a non-blocking call) and the CONTENT is symbolic: first header byte (FIN, RSV, opcode) of every frame, masking keys, every payload byte",
         "method": "symbolic execution forks on the opcode/FIN tests; per return path the solver enumerates the control sequences (opcode, FIN per frame) compatible with the path condition; for each RFC-valid sequence: result, payload bytes, text flag, bytes consumed, closed flag and all bytes written (incl. the drop-time Close) are proved equal to an RFC 6455 receiver for all keys/payload bytes; invalid sequences (unknown opcode, continuation first, new data opcode inside a message, fragmented control frame, RSV != 0) only get `no panic`",
         "shapes": len(d["results"]), "discharged": len(ok),
         "paths": sum(r.get("paths", 0) for r in d["results"]),
